@@ -94,8 +94,25 @@ pub fn run_ref_case(l: &[i64]) -> Vec<i64> {
                         H::Plain(r) => r.borrow().v(),
                         H::Dyn(r) => r.borrow().v(),
                     };
+                    // the same object read through a mutable borrow (Deref of BorrowMut) and, for a plain handle,
+                    // through the unsafe inner handle of a clone (From<Reference> for ReferenceUnsafe) must agree
+                    let v2 = match pool[k].as_ref().unwrap() {
+                        H::Plain(r) => r.borrow_mut().v(),
+                        H::Dyn(r) => r.borrow_mut().v(),
+                    };
+                    let v3 = match pool[k].as_ref().unwrap() {
+                        H::Plain(r) => {
+                            let u: rrtk::reference::ReferenceUnsafe<Foo> = r.clone().into();
+                            let x = unsafe { u.borrow().v() };
+                            x
+                        }
+                        H::Dyn(_) => v,
+                    };
                     o.push(1);
                     o.push(v);
+                    if v2 != v || v3 != v {
+                        o.push(94);
+                    }
                 }
                 4 => {
                     match pool[k].as_ref().unwrap() {
